@@ -206,7 +206,7 @@ def jobs(tier, seed):
     js = []
     for wait_on in ('timeout', 'event', 'child'):
         for handler in ('finish', 'rewait', 'other', 'raise'):
-            for intr in ([1], [2], [1, 1]) if tier == 'quick' else ([1], [2], [3], [1, 1], [2, 1], [1, 1, 1]):
+            for intr in ([1], [2], [1, 1]) if tier == 'quick' else ([1], [2], [3], [1, 1], [2, 1], [1, 1, 1], [2, 2]):
                 for cow in (False, True):
                     if tier == 'quick' and cow and handler in ('raise',):
                         continue
@@ -224,6 +224,11 @@ def jobs(tier, seed):
         # first interrupt: wait for something else; second: go back to the old target (possibly processed meanwhile)
         js.append({'harness': 'intr', 'cfg': {'wait_on': wait_on, 'handler': ['other', 'rewait'], 'interrupters': [2],
                                               'cowaiter': True, 'sorts': 'int'}, 'weight': 40})
+    if tier != 'quick':
+        for wait_on in ('timeout', 'event', 'child'):
+            for hs in (['other', 'rewait', 'other'], ['rewait', 'other', 'finish'], ['other', 'other', 'rewait']):
+                js.append({'harness': 'intr', 'cfg': {'wait_on': wait_on, 'handler': hs, 'interrupters': [2, 1],
+                                                      'cowaiter': True, 'sorts': 'mixed'}, 'weight': 300})
     js.append({'harness': 'intr', 'cfg': {'wait_on': 'timeout', 'handler': 'other', 'interrupters': [1], 'cowaiter': True,
                                           'sorts': 'real', 'spawn_by_interrupter': True, 'self_interrupt': True}, 'weight': 30})
     js.append({'harness': 'intr', 'cfg': {'wait_on': 'event', 'handler': 'finish', 'interrupters': [1, 1], 'cowaiter': True,
@@ -242,7 +247,7 @@ META = {
     'bounds': {'quick': 'one victim waiting on a timeout / shared event / child; handlers finish, re-wait, wait for another timeout, raise; '
                         '1-2 interrupters issuing <= 2 interrupts at symbolic instants with symbolic causes; optional co-waiter; victim '
                         'spawned and interrupted in one instant; self-interrupt attempt',
-               'thorough': '<= 3 interrupts'},
+               'thorough': '<= 4 interrupts from <= 3 interrupters (1, 2, 3, 1+1, 2+1, 1+1+1, 2+2); handler sequences of three steps'},
     'assumptions': ['"ordinary events" observed are the timeouts that resume harness processes'],
     'stubs': [],
     'outside': ['several victims; more interrupts'],
@@ -252,5 +257,5 @@ MANIFEST = {
     'level_text': 'Bounded model checking by symbolic execution of the real interrupt machinery: delivery exactly once, at the '
                   'issue instant, in issue order, ahead of ordinary events, no resumption by the abandoned target, RuntimeError for '
                   'dead/self targets - proved for every order-type of the symbolic instants of each bounded scenario.',
-    'level_note': 'Trusted: z3, symx proxies (validated by concrete witness replay); one victim, <= 3 interrupts.',
+    'level_note': 'Trusted: z3, symx proxies (validated by concrete witness replay); one victim, <= 4 interrupts.',
 }
